@@ -112,37 +112,43 @@ pub fn c07(o: &Oracle, thorough: bool, _seed: u64, rep: &Report) {
     }
     let n = ranks.len();
     let nclasses = o.n_classes;
+    let pair_ok = |i: usize, j: usize| -> bool {
+        let (a, b) = (&ranks[i], &ranks[j]);
+        let (va, vb) = (vals[i], vals[j]);
+        let e = pos[i].cmp(&pos[j]);
+        let c = a.cmp(b);
+        let ok = c == e
+            && a.partial_cmp(b) == Some(e)
+            && (a < b) == (e == O::Less)
+            && (a <= b) == (e != O::Greater)
+            && (a > b) == (e == O::Greater)
+            && (a >= b) == (e != O::Less)
+            && ((e == O::Equal) == (a == b))
+            && ((a == b) == (va == vb));
+        // anchors of the statement
+        let a_real = va >= 1 && va <= nclasses;
+        let b_real = vb >= 1 && vb <= nclasses;
+        let anchor = if a_real && b_real {
+            c == vb.cmp(&va)
+        } else if !a_real && b_real {
+            c == O::Less
+        } else if a_real && !b_real {
+            c == O::Greater
+        } else {
+            (c == O::Equal) == (va == vb)
+        };
+        ok && anchor
+    };
     par_chunks(n, |i| {
-        let a = &ranks[i];
-        let va = vals[i];
-        for j in 0..n {
-            let b = &ranks[j];
-            let vb = vals[j];
-            let e = pos[i].cmp(&pos[j]);
-            let c = a.cmp(b);
-            let ok = c == e
-                && a.partial_cmp(b) == Some(e)
-                && (a < b) == (e == O::Less)
-                && (a <= b) == (e != O::Greater)
-                && (a > b) == (e == O::Greater)
-                && (a >= b) == (e != O::Less)
-                && ((e == O::Equal) == (a == b))
-                && ((a == b) == (va == vb));
-            // anchors of the statement
-            let a_real = va >= 1 && va <= nclasses;
-            let b_real = vb >= 1 && vb <= nclasses;
-            let anchor = if a_real && b_real {
-                c == vb.cmp(&va)
-            } else if !a_real && b_real {
-                c == O::Less
-            } else if a_real && !b_real {
-                c == O::Greater
-            } else {
-                (c == O::Equal) == (va == vb)
-            };
-            if !ok || !anchor {
-                viol(rep, json!({"op":"cmp","a":va,"b":vb}), json!({"lawful": true}),
-                     "comparison is not a total order consistent with equality in which stronger is greater and invalid is lowest");
+        // one row at a time; if the row fails or unwinds, find the pair
+        let row = guarded(|| (0..n).all(|j| pair_ok(i, j)));
+        if row != Ok(true) {
+            for j in 0..n {
+                if guarded(|| pair_ok(i, j)) != Ok(true) {
+                    viol(rep, json!({"op":"cmp","a":vals[i],"b":vals[j]}), json!({"lawful": true}),
+                         "comparison is not a total order consistent with equality in which stronger is greater and invalid is lowest");
+                    break;
+                }
             }
         }
     });
